@@ -43,11 +43,17 @@ typedef struct {
 
     /* Current block state */
     int64_t min_delta;
-    uint8_t bit_widths[DELTA_MINI_BLOCKS];
+    const uint8_t* bit_widths;      /* Width bytes of the current block (inside data) */
     int32_t current_mini_block;
     int32_t values_in_mini_block;
 
-    /* Mini-block buffer */
+    /* Current mini-block: any size that is a multiple of 32, unpacked in
+     * chunks of DELTA_MINI_BLOCK_SIZE (32) values, which always end on a
+     * byte boundary */
+    int bit_width;
+    int32_t mini_block_remaining;   /* Values of the mini-block not yet unpacked */
+
+    /* Chunk buffer */
     int64_t mini_block_values[DELTA_MINI_BLOCK_SIZE];
     int32_t mini_block_pos;
 } delta_decoder_t;
@@ -132,25 +138,24 @@ static carquet_status_t delta_decoder_init(delta_decoder_t* dec,
 
     /* Block size */
     bytes = read_uleb128(data + dec->pos, size - dec->pos, &val);
-    if (bytes == 0) return CARQUET_ERROR_DECODE;
+    if (bytes == 0 || val > INT32_MAX) return CARQUET_ERROR_DECODE;
     dec->block_size = (int32_t)val;
     dec->pos += bytes;
 
     /* Mini-blocks per block */
     bytes = read_uleb128(data + dec->pos, size - dec->pos, &val);
-    if (bytes == 0) return CARQUET_ERROR_DECODE;
+    if (bytes == 0 || val > INT32_MAX) return CARQUET_ERROR_DECODE;
     dec->mini_blocks_per_block = (int32_t)val;
     dec->pos += bytes;
 
-    /* Validate header values to prevent buffer overflows */
-    if (dec->mini_blocks_per_block <= 0 || dec->mini_blocks_per_block > DELTA_MINI_BLOCKS) {
+    /* Validate the block geometry: the block size is a multiple of 128 and
+     * the mini-block size a multiple of 32 (any such geometry is legal) */
+    if (dec->block_size <= 0 || dec->block_size % DELTA_BLOCK_SIZE != 0) {
         return CARQUET_ERROR_DECODE;
     }
-    if (dec->block_size <= 0 || dec->block_size > DELTA_BLOCK_SIZE) {
-        return CARQUET_ERROR_DECODE;
-    }
-    /* mini_block_size = block_size / mini_blocks_per_block must fit in buffer */
-    if (dec->block_size / dec->mini_blocks_per_block > DELTA_MINI_BLOCK_SIZE) {
+    if (dec->mini_blocks_per_block <= 0 ||
+        dec->block_size % dec->mini_blocks_per_block != 0 ||
+        (dec->block_size / dec->mini_blocks_per_block) % DELTA_MINI_BLOCK_SIZE != 0) {
         return CARQUET_ERROR_DECODE;
     }
 
@@ -186,70 +191,85 @@ static carquet_status_t delta_decoder_read_block(delta_decoder_t* dec) {
     dec->pos += bytes;
 
     /* Read bit widths for each mini-block */
-    if (dec->pos + dec->mini_blocks_per_block > dec->size) {
+    if ((size_t)dec->mini_blocks_per_block > dec->size - dec->pos) {
         return CARQUET_ERROR_DECODE;
     }
-    memcpy(dec->bit_widths, dec->data + dec->pos, dec->mini_blocks_per_block);
-    dec->pos += dec->mini_blocks_per_block;
+    dec->bit_widths = dec->data + dec->pos;
+    dec->pos += (size_t)dec->mini_blocks_per_block;
 
     dec->current_mini_block = 0;
     return CARQUET_OK;
 }
 
 static carquet_status_t delta_decoder_read_mini_block(delta_decoder_t* dec) {
-    if (dec->current_mini_block >= dec->mini_blocks_per_block) {
-        carquet_status_t status = delta_decoder_read_block(dec);
-        if (status != CARQUET_OK) return status;
+    if (dec->mini_block_remaining <= 0) {
+        /* Start the next mini-block */
+        if (dec->current_mini_block >= dec->mini_blocks_per_block) {
+            carquet_status_t status = delta_decoder_read_block(dec);
+            if (status != CARQUET_OK) return status;
+        }
+
+        dec->bit_width = dec->bit_widths[dec->current_mini_block];
+        if (dec->bit_width > 64) {
+            return CARQUET_ERROR_DECODE;
+        }
+        dec->mini_block_remaining = dec->block_size / dec->mini_blocks_per_block;
+        dec->current_mini_block++;
     }
 
-    int bit_width = dec->bit_widths[dec->current_mini_block];
-    int mini_block_size = dec->block_size / dec->mini_blocks_per_block;
+    /* Unpack the next 32 values of the mini-block */
+    int bit_width = dec->bit_width;
+    int chunk_size = DELTA_MINI_BLOCK_SIZE;
+    size_t packed_size = (size_t)chunk_size * (size_t)bit_width / 8;
+    if (packed_size > dec->size - dec->pos) {
+        return CARQUET_ERROR_DECODE;
+    }
 
     if (bit_width == 0) {
         /* All deltas are min_delta */
-        for (int i = 0; i < mini_block_size; i++) {
+        for (int i = 0; i < chunk_size; i++) {
             dec->mini_block_values[i] = dec->min_delta;
         }
     } else if (bit_width <= 32) {
         /* Unpack bit-packed deltas (32-bit) */
-        size_t packed_size = (mini_block_size * bit_width + 7) / 8;
-        if (dec->pos + packed_size > dec->size) {
-            return CARQUET_ERROR_DECODE;
-        }
-
         uint32_t unpacked[DELTA_MINI_BLOCK_SIZE];
-        carquet_bitunpack_32(dec->data + dec->pos, mini_block_size, bit_width, unpacked);
+        carquet_bitunpack_32(dec->data + dec->pos, chunk_size, bit_width, unpacked);
 
-        for (int i = 0; i < mini_block_size; i++) {
+        for (int i = 0; i < chunk_size; i++) {
             /* Use unsigned addition to avoid overflow UB */
             dec->mini_block_values[i] = (int64_t)((uint64_t)dec->min_delta + (uint64_t)unpacked[i]);
         }
-
-        dec->pos += packed_size;
     } else {
         /* Deltas wider than 32 bits are bit-packed like every other width */
-        if (bit_width > 64) {
-            return CARQUET_ERROR_DECODE;
-        }
-        size_t packed_size = ((size_t)mini_block_size * (size_t)bit_width + 7) / 8;
-        if (dec->pos + packed_size > dec->size) {
-            return CARQUET_ERROR_DECODE;
-        }
-
-        for (int i = 0; i < mini_block_size; i++) {
+        for (int i = 0; i < chunk_size; i++) {
             uint64_t val = unpack_bits64(dec->data + dec->pos,
                                          (size_t)i * (size_t)bit_width, bit_width);
             /* Use unsigned addition to avoid overflow UB */
             dec->mini_block_values[i] = (int64_t)((uint64_t)dec->min_delta + val);
         }
-
-        dec->pos += packed_size;
     }
 
-    dec->current_mini_block++;
+    dec->pos += packed_size;
+    dec->mini_block_remaining -= chunk_size;
     dec->mini_block_pos = 0;
-    dec->values_in_mini_block = mini_block_size;
+    dec->values_in_mini_block = chunk_size;
 
+    return CARQUET_OK;
+}
+
+/**
+ * Position the decoder behind the mini-block it is in: a mini-block is
+ * always stored whole, also when the last value lies in its first chunk.
+ */
+static carquet_status_t delta_decoder_finish_mini_block(delta_decoder_t* dec) {
+    if (dec->mini_block_remaining > 0) {
+        size_t rest = (size_t)dec->mini_block_remaining * (size_t)dec->bit_width / 8;
+        if (rest > dec->size - dec->pos) {
+            return CARQUET_ERROR_DECODE;
+        }
+        dec->pos += rest;
+        dec->mini_block_remaining = 0;
+    }
     return CARQUET_OK;
 }
 
@@ -307,6 +327,11 @@ carquet_status_t carquet_delta_decode_int32(
         values[i] = (int32_t)val;
     }
 
+    status = delta_decoder_finish_mini_block(&dec);
+    if (status != CARQUET_OK) {
+        return status;
+    }
+
     if (bytes_consumed) {
         *bytes_consumed = dec.pos;
     }
@@ -332,6 +357,11 @@ carquet_status_t carquet_delta_decode_int64(
         if (status != CARQUET_OK) {
             return status;
         }
+    }
+
+    status = delta_decoder_finish_mini_block(&dec);
+    if (status != CARQUET_OK) {
+        return status;
     }
 
     if (bytes_consumed) {
